@@ -809,7 +809,47 @@ static void worker_main(Property &prop, const Args &a, int w, uint64_t start, ui
 			IsoResult r1 = run_isolated(plan), r2 = run_isolated(plan);
 			if (r1.kind == IsoResult::OK && r2.kind == IsoResult::OK)
 			{
-				send_line(fd, "N " + std::to_string(i) + " violation " + cls + " seen in-process but neither the in-process rerun nor two fresh-process runs reproduce it");
+				// The plan alone is innocent: the violation needs state left behind by earlier runs of this worker process
+				// (a static cache, a global format, errno, ...).  Re-create the history in a fresh process, shortest suffix first.
+				Plan hp;
+				hp.prop = prop.id();
+				hp.seed = plan.seed;
+				hp.is_history = true;
+				hp.hist_seed = a.seed;
+				hp.hist_tier = a.tier == THOROUGH ? 1 : 0;
+				hp.hist_step = (uint64_t)a.workers;
+				hp.hist_last = i;
+				bool found = false;
+				uint64_t nruns = (i - start) / (uint64_t)a.workers; // runs before this one in this process
+				for (uint64_t back = 1; !found; back = back * 2)
+				{
+					uint64_t k = back > nruns ? nruns : back;
+					hp.hist_start = i - k * (uint64_t)a.workers;
+					std::string hpath = tmp_path("hist-plan");
+					write_file(hpath, hp.to_text());
+					IsoResult h1 = run_replay_file(prop.id(), hpath, 300);
+					unlink(hpath.c_str());
+					if ((h1.kind == IsoResult::VIOL || h1.kind == IsoResult::CRASH) && sanitize_cls(h1.cls) == cls)
+					{
+						found = true;
+						detail = h1.detail;
+					}
+					if (k == nruns)
+						break;
+				}
+				if (!found)
+				{
+					send_line(fd, "N " + std::to_string(i) + " violation " + cls + " seen in-process but neither the in-process rerun, two fresh-process runs nor the replay of this worker's history reproduce it");
+					break;
+				}
+				hp.expect_class = cls;
+				hp.detail = detail + "  [needs the " + std::to_string((hp.hist_last - hp.hist_start) / hp.hist_step) + " preceding run(s) of the same process: state left behind by an earlier call]";
+				std::string path = replay_dir(prop.id()) + "/" + std::to_string(plan.seed) + ".replay";
+				write_file(path, hp.to_text());
+				send_line(fd, "V " + std::to_string(i) + "\t" + cls + "\t" + path + "\thistory of " + std::to_string((hp.hist_last - hp.hist_start) / hp.hist_step + 1) + " runs\t" + hp.detail);
+				reported++;
+				sh->inflight = UINT64_MAX;
+				i += (uint64_t)a.workers;
 				break;
 			}
 			if (r1.cls != r2.cls || r1.hash != r2.hash)
@@ -895,12 +935,37 @@ static int replay_main(Property &prop, const Args &a)
 		fprintf(stderr, "replay file is for property %s, not %s\n", plan.prop.c_str(), prop.id());
 		return 2;
 	}
-	prop.process_init(plan.seed);
-	prop.apply_process_cfg(plan);
-	Outcome o = execute_plan(prop, plan, a.verbose);
-	if (a.verbose)
-		for (auto &l : o.lines)
-			printf("  | %s\n", l.c_str());
+	Outcome o;
+	if (plan.is_history)
+	{
+		// re-create what one worker process did: the same plan indices in the same order in this fresh process
+		Args ha = a;
+		ha.seed = plan.hist_seed;
+		ha.tier = plan.hist_tier ? THOROUGH : QUICK;
+		ha.workers = (int)(plan.hist_step ? plan.hist_step : 1);
+		prop.process_init(proc_seed_of(ha, plan.hist_start));
+		uint64_t n = 0;
+		for (uint64_t idx = plan.hist_start; idx <= plan.hist_last; idx += (uint64_t)ha.workers)
+		{
+			Plan p = gen_plan(prop, ha, idx);
+			o = execute_plan(prop, p, a.verbose && idx == plan.hist_last);
+			n++;
+			if (a.verbose)
+				printf("  history run index %llu -> %s\n", (unsigned long long)idx, o.violated ? o.v.cls.c_str() : "ok");
+		}
+		if (a.verbose)
+			for (auto &l : o.lines)
+				printf("  | %s\n", l.c_str());
+	}
+	else
+	{
+		prop.process_init(plan.seed);
+		prop.apply_process_cfg(plan);
+		o = execute_plan(prop, plan, a.verbose);
+		if (a.verbose)
+			for (auto &l : o.lines)
+				printf("  | %s\n", l.c_str());
+	}
 	if (getenv("JSIM_EMIT_COV"))
 	{
 		for (auto &k : o.cov)
